@@ -73,6 +73,12 @@ def base_specs():
         E("pipe", f=0, to=1, u=4.0, index=0), E("heat_exchanger", f=1, to=2, index=0), E("pipe", f=3, to=4, u=4.0, index=1),
         E("heat_consumer", f=4, to=5, mdot=0.7, qext_w=9000.0, index=0), E("press_control", f=1, to=2, cj=2, index=0)],
         "flags": [("elem", 0), ("elem", 1), ("elem", 3), ("elem", 6)]})
+    # two pressure zones in a thermal calculation: zone B has a pressure feeder but no temperature feeder
+    S.append({"name": "w_two_zones_seq", "fluid": "water", "nj": 6, "mode": "sequential", "elems": [
+        E("ext_grid", j=0, type="pt", index=0), E("pipe", f=0, to=1, u=5.0, sections=2, index=0), E("pipe", f=1, to=2, u=5.0, index=1),
+        E("sink", j=2, index=0), E("ext_grid", j=3, type="p", index=1), E("pipe", f=3, to=4, u=5.0, index=2),
+        E("pipe", f=4, to=5, u=5.0, sections=2, index=3), E("sink", j=5, index=1), E("sink", j=4, index=2)],
+        "flags": [("elem", 2), ("elem", 6), ("elem", 4)]})
     # stand-by feeders: an out-of-service circulation pump next to a working one of the same kind
     S.append({"name": "w_circ_standby", "fluid": "water", "nj": 4, "mode": "sequential", "elems": [
         E("circ_pump_pressure", ret=3, flow=0, index=0), E("circ_pump_pressure", ret=3, flow=0, index=1, t_flow=345.0),
@@ -209,7 +215,7 @@ def jobs(tier, seed):
     rng = random.Random(4000 + seed)
     bases = base_specs()
     if tier == "quick":
-        bases = bases[:8]
+        bases = bases[:9]
     for s in bases:
         k = len(s["flags"])
         allp = list(itertools.product([True, False], repeat=k))
@@ -269,6 +275,11 @@ def worker(job):
                         if key in netb and ix in netb[key].index:
                             out.append(("%s.%s[%s]" % (key, col, ix), x, netb[key].at[ix, col]))
                     elif (tbl, ix) in present:
+                        if col in ("mdot_from_kg_per_s", "mdot_kg_per_s", "p_from_bar"):
+                            # oracle B: an in-service element between supplied junctions receives (hydraulic) results
+                            ev += 1
+                            if is_nan(x):
+                                pattern_viol("%s %s is in service between supplied junctions but reports no %s" % (tbl, ix, col))
                         if key in netb and col in netb[key].columns and ix in netb[key].index:
                             out.append(("%s.%s[%s]" % (key, col, ix), x, netb[key].at[ix, col]))
                     else:
